@@ -38,13 +38,20 @@ IsDeployment(s) == s.wl.exists /\ s.wl.kind = "Deployment"
 WlCanaryRev(s)  == s.wl.updRev
 \* rollback as the finder sees it: CloneSet-like kinds by revisions and counters; a (canary-style) Deployment when the template
 \* equals the stable ReplicaSet's again
+IsBlueGreen(s) == IsDeployment(s) /\ s.wl.style = "bluegreen"
+\* blue-green / partition-style Deployment finder: stable revision = the stable-revision label the webhook wrote, pod
+\* template hash = the hash of the ReplicaSet of the current template (if it has pods), rollback = the two are equal
+BgPodHash(s) == IF s.wl.inprog /\ s.wl.rsSpec[s.wl.specRev] > 0 THEN s.wl.specRev ELSE 0
+WlStableRev(s) == IF IsBlueGreen(s) THEN s.wl.stableLabel ELSE s.wl.stableRev
 WlInRollback(s) ==
-  IF IsDeployment(s) THEN s.wl.inprog /\ s.wl.specRev = s.wl.stableRev
+  IF IsBlueGreen(s) THEN s.wl.inprog /\ s.wl.stableLabel # 0 /\ s.wl.stableLabel = BgPodHash(s)
+  ELSE IF IsDeployment(s) THEN s.wl.inprog /\ s.wl.specRev = s.wl.stableRev
   ELSE s.wl.inprog /\ s.wl.stableRev = s.wl.updRev /\ s.wl.stUpdated # s.wl.stRepl /\ s.wl.kind # "DaemonSet"
 \* Workload.PodTemplateHash: the update revision; for a canary-style Deployment the hash of the canary Deployment's (oldest,
 \* non-empty) ReplicaSet, known only while the release is in progress and not rolled back
 WlPodHash(s) ==
-  IF IsDeployment(s)
+  IF IsBlueGreen(s) THEN BgPodHash(s)
+  ELSE IF IsDeployment(s)
   THEN IF s.wl.inprog /\ ~WlInRollback(s) /\ s.wl.cd.n > 0 /\ ~s.wl.cd.deleting /\ s.wl.cd.rsSpec > 0 THEN s.wl.cd.rev ELSE 0
   ELSE s.wl.updRev
 
@@ -155,6 +162,12 @@ EnsureRoutes(net, st) ==
   LET a == EnsureIngress(net, st)
       b == EnsureGateway(a.net, st)
   IN  [net |-> b.net, ok |-> a.ok /\ b.ok]
+
+\* RouteAllTrafficToNewVersion (blue-green success): weight 100%, no matches, under the "updateRoute" grace
+RouteAllToNew(s) ==
+  IF ~HasProvider(s) THEN NoOp(s)
+  ELSE LET e == EnsureRoutes(s.net, [rep |-> -1, pct |-> -1, traffic |-> 100, match |-> "", pause |-> -1, is100 |-> FALSE])
+       IN  WithGrace([s EXCEPT !.net = e.net], "updateRoute", ~e.ok)
 
 \* Manager.DoTrafficRouting for the rollout's current step: [s, done]
 DoTrafficRouting(s) ==
@@ -271,11 +284,19 @@ RunCanary(sIn) ==
   IN  IF r.ro = corrected THEN [r EXCEPT !.ro.next = sIn.ro.next] ELSE r
 
 \* finalising task orders (rollout_canary.go nextCanaryTask)
+BgTaskSeq(reason) ==
+  CASE reason = "Success"  -> <<"FinalisingStepRouteTrafficToNew", "RestoreStableService", "ResumeWorkload", "FinalisingStepRouteTrafficToStable",
+                                "RemoveCanaryService", "ReleaseWorkloadControl">>
+    [] reason = "Rollback" -> <<"FinalisingStepRouteTrafficToStable", "ResumeWorkload", "RestoreStableService", "RemoveCanaryService", "ReleaseWorkloadControl">>
+    [] OTHER -> <<"RestoreStableService", "FinalisingStepRouteTrafficToStable", "RemoveCanaryService", "ResumeWorkload", "ReleaseWorkloadControl">>
 TaskSeq(reason) ==
   IF reason = "Rollback"
   THEN <<"FinalisingStepRouteTrafficToStable", "ResumeWorkload", "ReleaseWorkloadControl", "RestoreStableService", "RemoveCanaryService">>
   ELSE <<"RestoreStableService", "FinalisingStepRouteTrafficToStable", "RemoveCanaryService", "ResumeWorkload", "ReleaseWorkloadControl">>
 
+NextTaskIn(q, cur) ==
+  IF cur = "" THEN q[1]
+  ELSE IF \E i \in 1..(Len(q) - 1) : q[i] = cur THEN q[(CHOOSE i \in 1..(Len(q) - 1) : q[i] = cur) + 1] ELSE "END"
 NextTask(reason, cur) ==
   LET q == TaskSeq(reason) IN
   IF cur = "" THEN q[1]
@@ -309,7 +330,7 @@ DoFinalising(sIn, reason, waitReady) ==
   IF ~s0.ro.hasSub THEN [s |-> s0, done |-> TRUE]
   ELSE
   LET s1 == IF s0.wl.exists /\ s0.wl.inprog /\ s0.wl.genOk THEN [s0 EXCEPT !.wl.inprog = FALSE] ELSE s0   \* removeRolloutProgressingAnnotation
-      nx == NextTask(reason, s1.ro.fstep)
+      nx == IF IsBlueGreen(s1) THEN NextTaskIn(BgTaskSeq(reason), s1.ro.fstep) ELSE NextTask(reason, s1.ro.fstep)
       s  == IF s1.ro.fstep = "" THEN [s1 EXCEPT !.ro.fstep = nx, !.ro.fresh = TRUE] ELSE s1
   IN
   IF s.ro.fstep = "END" THEN [s |-> s, done |-> TRUE]
@@ -321,6 +342,7 @@ DoFinalising(sIn, reason, waitReady) ==
              [] cur = "FinalisingStepRouteTrafficToStable" -> RestoreGateway(s)
              [] cur = "RestoreStableService" -> RestoreStableService(s)
              [] cur = "RemoveCanaryService" -> RemoveCanaryService(s)
+             [] cur = "FinalisingStepRouteTrafficToNew" -> RouteAllToNew(s)
              [] OTHER -> [s |-> s, retry |-> TRUE]
   IN  IF r.retry THEN [s |-> r.s, done |-> FALSE]
       ELSE [s |-> [r.s EXCEPT !.ro.fstep = nxt, !.ro.fresh = TRUE], done |-> nxt = "END"]
@@ -373,7 +395,7 @@ RoProgressing(s, old) ==
   CASE old.reason = "Initializing" ->
          LET s1 == [s EXCEPT !.ro = [EmptySub(s.ro) EXCEPT !.hasSub = TRUE, !.step = 1, !.next = NextIdx(s, 1), !.state = "BeforeStepUpgrade",
                                                          !.fresh = TRUE, !.hashOk = TRUE, !.hashSet = TRUE, !.canaryRev = WlCanaryRev(s),
-                                                         !.stableRev = s.wl.stableRev, !.rid = WlRolloutID(s)]]
+                                                         !.stableRev = WlStableRev(s), !.rid = WlRolloutID(s)]]
          IN  IF s.ro.condFresh THEN s1
              ELSE IF ~s.tr.used THEN [s1 EXCEPT !.ro.reason = "InRolling"]
              \* handleTrafficRouting: the release starts only once this Rollout's progressing finalizer is on the TrafficRouting object
@@ -446,7 +468,7 @@ RoStep(s0) ==
                    THEN [sE EXCEPT !.ro.phase = "Progressing", !.ro.reason = "Initializing", !.ro.condFresh = TRUE, !.ro.succeeded = ""]
                    ELSE IF ~sE.ro.hasSub
                    THEN [sE EXCEPT !.ro = [sE.ro EXCEPT !.hasSub = TRUE, !.step = N(sE), !.next = -1, !.state = "Completed", !.hashOk = TRUE, !.hashSet = TRUE,
-                                                        !.canaryRev = WlCanaryRev(sE), !.stableRev = sE.wl.stableRev, !.podHash = WlPodHash(sE),
+                                                        !.canaryRev = WlCanaryRev(sE), !.stableRev = WlStableRev(sE), !.podHash = WlPodHash(sE),
                                                         !.rid = WlRolloutID(sE)]]
                    ELSE sE
               [] sE.ro.phase = "Disabled" -> IF ~sE.user.disabled THEN [sE EXCEPT !.ro.phase = "Healthy"] ELSE sE
@@ -525,9 +547,14 @@ BrReadyNow(s) ==
   /\ (s.br.rid = "" \/ s.wl.labelled >= BrPlanned(s, s.br.batch))
 
 \* derived fields of the Deployment projection (harness/sim/depenv.go Project): what may run at the new revision
+SurgeCount(wl) == CASE wl.surgeT = "pct" -> ScaledUp(wl.surgeV, wl.R) [] wl.surgeT = "int" -> wl.surgeV [] OTHER -> 0
 DepDerive(s) ==
   IF IsDeployment(s) /\ s.wl.style = "canary"
   THEN [s EXCEPT !.wl.asked = IF s.wl.paused THEN s.wl.cd.replicas ELSE s.wl.R, !.wl.kval = s.wl.cd.replicas]
+  ELSE IF IsBlueGreen(s)
+  THEN [s EXCEPT !.wl.ktype = s.wl.surgeT, !.wl.kval = s.wl.surgeV,
+                 !.wl.asked = IF s.wl.paused THEN (IF s.wl.specRev = s.wl.stableRev THEN 0 ELSE s.wl.n[s.wl.specRev])
+                              ELSE IF s.wl.origAnno THEN Min(SurgeCount(s.wl), s.wl.R) ELSE s.wl.R]
   ELSE s
 
 \* ------------------------------------------------ canary style (Deployment): control/canarystyle
@@ -593,6 +620,72 @@ BrExecCanary(sR) ==
              ELSE fin([rel EXCEPT !.br.phase = "Completed", !.wl.cd.finalizer = FALSE])
     [] OTHER -> fin(sR)
 
+\* ------------------------------------------------ blue-green (Deployment): control/bluegreenstyle
+BgOrig == [surgeT |-> "pct", surgeV |-> 25, unavT |-> "pct", unavV |-> 25, minReady |-> 0, pdl |-> 600]
+MaxProgressSeconds == 2147483647
+MaxReadySeconds == 2147483646
+BrEventBG(s) ==
+  IF s.br.deleting THEN "normal"
+  ELSE IF ~s.wl.exists THEN "gone"
+  ELSE IF ~s.wl.genOk THEN "unstable"
+  ELSE IF s.wl.stRepl = s.wl.stUpdated THEN "normal"
+  ELSE IF s.br.obsR # -1 /\ s.wl.R # s.br.obsR THEN "scaling"
+  ELSE IF s.br.updRev # 0 /\ s.wl.specRev = s.wl.stableLabel /\ s.br.stableRev = s.wl.specRev /\ s.br.stableRev # s.br.updRev THEN "rollback"
+  ELSE IF s.br.updRev # 0 /\ s.wl.specRev # s.br.updRev THEN "revision"
+  ELSE "normal"
+\* NewRSReplicasLimit: the batch's surge, at most the workload size, and one less unless it is 100%
+BgPlanned(st, R) ==
+  LET lim == Max(0, Min(IF IsPct(st) THEN ScaledUp(st.pct, R) ELSE st.rep, R))
+  IN  IF R > 1 /\ IsPct(st) /\ st.pct # 100 THEN Min(lim, R - 1) ELSE lim
+BgReady(s) ==
+  LET st == s.br.plan[s.br.batch + 1]  pl == BgPlanned(st, s.wl.R) IN
+  /\ ReadyPred(s.wl.stUpdated, s.wl.rd[s.wl.specRev], pl, s.br.thrKind, s.br.thrVal)
+  \* the labels patched by this very call are not seen by its readiness check (it looks at the pods listed before)
+  /\ (s.br.rid = "" \/ s.wl.n[s.wl.specRev] = 0 \/ s.wl.labelled >= pl)
+BgValid(s) == s.wl.ctrl /\ s.wl.strategy = "RollingUpdate" /\ s.wl.surgeT # "none" /\ s.wl.minReady = MaxReadySeconds /\ s.wl.pdl = MaxProgressSeconds
+
+BrExecBlueGreen(sR) ==
+  LET fin(x) == DepDerive([x EXCEPT !.br.obsGenOk = TRUE]) IN
+  CASE sR.br.phase = "Preparing" ->
+         \* Initialize: disable the HPA, fence the stable ReplicaSet, save the strategy and install the blue-green one
+         LET a == IF sR.wl.ctrl THEN sR
+                  ELSE [sR EXCEPT !.wl.ctrl = TRUE, !.wl.origAnno = TRUE, !.wl.hpaOk = IF sR.wl.hpa THEN FALSE ELSE sR.wl.hpaOk,
+                                  !.wl.strategy = "RollingUpdate", !.wl.surgeT = "int", !.wl.surgeV = 1, !.wl.unavT = "int", !.wl.unavV = 0,
+                                  !.wl.minReady = MaxReadySeconds, !.wl.pdl = MaxProgressSeconds, !.wl.genOk = FALSE]
+         IN  fin([a EXCEPT !.br.phase = "Progressing", !.br.obsR = a.wl.R, !.br.stableRev = a.wl.stableLabel, !.br.updRev = a.wl.specRev])
+    [] sR.br.phase = "Progressing" ->
+         CASE sR.br.bstate \in {"", "Upgrading"} ->
+                IF sR.wl.R = 0 THEN fin([sR EXCEPT !.br.bstate = "Verifying"])
+                ELSE IF ~BgValid(sR) THEN fin([sR EXCEPT !.br.bstate = "Upgrading"])
+                ELSE LET st == sR.br.plan[sR.br.batch + 1]
+                         desired == IF IsPct(st) THEN ScaledUp(st.pct, sR.wl.R) ELSE st.rep
+                         current == IF sR.wl.surgeT = "int" /\ sR.wl.surgeV = 1 THEN 0 ELSE SurgeCount(sR.wl)
+                     IN  IF current >= desired THEN fin([sR EXCEPT !.br.bstate = "Verifying"])
+                         ELSE fin([sR EXCEPT !.br.bstate = "Verifying", !.wl.paused = FALSE, !.wl.strategy = "RollingUpdate",
+                                             !.wl.surgeT = IF IsPct(st) THEN "pct" ELSE "int", !.wl.surgeV = IF IsPct(st) THEN st.pct ELSE st.rep,
+                                             !.wl.unavT = "int", !.wl.unavV = 0, !.wl.genOk = FALSE])
+           [] sR.br.bstate = "Verifying" ->
+                IF sR.wl.R = 0 \/ BgReady(sR) THEN fin([sR EXCEPT !.br.bstate = "Ready"]) ELSE fin([sR EXCEPT !.br.bstate = "Upgrading"])
+           [] sR.br.bstate = "Ready" ->
+                IF ~(sR.wl.R = 0 \/ BgReady(sR)) THEN fin([sR EXCEPT !.br.bstate = "Upgrading"])
+                ELSE IF sR.br.partition >= 0 /\ sR.br.partition <= sR.br.batch THEN fin(sR)
+                ELSE fin([sR EXCEPT !.br.batch = sR.br.batch + 1, !.br.bstate = "Upgrading"])
+           [] OTHER -> fin(sR)
+    [] sR.br.phase = "Finalizing" ->
+         \* Finalize. batchPartition still set: "continuous release is not supported yet", nothing is released.
+         \* Otherwise: restore the saved strategy (BgOrig: the fixture's values, harness/sim/depenv.go), wait until all pods are
+         \* updated and ready, restore the HPA. On a LATER call the Deployment is already restored and the wait runs on an
+         \* empty object: it passes vacuously (KF-C11-bluegreen-finalize-retry-vacuous, modelled as the code behaves).
+         IF ~sR.wl.exists \/ sR.br.partition # -1 THEN fin([sR EXCEPT !.br.phase = "Completed"])
+         ELSE IF sR.wl.origAnno
+         THEN LET r == [sR EXCEPT !.wl.paused = FALSE, !.wl.minReady = BgOrig.minReady, !.wl.pdl = BgOrig.pdl,
+                                  !.wl.surgeT = BgOrig.surgeT, !.wl.surgeV = BgOrig.surgeV, !.wl.unavT = BgOrig.unavT, !.wl.unavV = BgOrig.unavV,
+                                  !.wl.origAnno = FALSE, !.wl.stableLabel = 0, !.wl.ctrl = FALSE, !.wl.genOk = FALSE]
+                  ok == r.wl.stUpdRdy = r.wl.stUpdated /\ MaxUnavailableOf(r.wl) + r.wl.stAvail >= r.wl.stRepl
+              IN  IF ok THEN fin([r EXCEPT !.br.phase = "Completed", !.wl.hpaOk = TRUE]) ELSE fin(r)
+         ELSE fin([sR EXCEPT !.br.phase = "Completed", !.wl.hpaOk = TRUE])
+    [] OTHER -> fin(sR)
+
 BrStep(s0) ==
   IF ~s0.br.exists THEN s0
   ELSE
@@ -604,6 +697,7 @@ BrStep(s0) ==
       wlGone == ~st0.wl.exists
       \* SyncWorkloadInformation
       ev == IF CanaryStyle(st0) THEN BrEventCanary(st0)
+            ELSE IF IsBlueGreen(st0) THEN BrEventBG(st0)
             ELSE IF st0.br.deleting THEN "normal"
             ELSE IF wlGone THEN "gone"
             ELSE IF ~st0.wl.genOk THEN "unstable"
@@ -632,6 +726,7 @@ BrStep(s0) ==
       \* refreshStatus
       sR == LET x == sp.s IN
             LET y == IF ~(x.wl.exists /\ ~x.br.deleting) THEN x
+                     ELSE IF IsBlueGreen(x) THEN [x EXCEPT !.br.stUpd = x.wl.stUpdated, !.br.stUpdRdy = x.wl.rd[x.wl.specRev]]
                      ELSE IF CanaryStyle(x)
                           THEN (IF CanaryFound(x) THEN [x EXCEPT !.br.stUpd = x.wl.cd.pods, !.br.stUpdRdy = x.wl.cd.avail]
                                 ELSE [x EXCEPT !.br.stUpd = 0, !.br.stUpdRdy = 0])
@@ -644,6 +739,7 @@ BrStep(s0) ==
   IF sp.stop \/ changed THEN fin(sR)
   ELSE
   IF CanaryStyle(sR) THEN BrExecCanary(sR)
+  ELSE IF IsBlueGreen(sR) THEN BrExecBlueGreen(sR)
   ELSE
   CASE sR.br.phase = "Preparing" ->
          \* Initialize: claim the workload (control-info annotation, partition 100%, un-paused), record revisions
@@ -798,8 +894,11 @@ ModelledPartition(p, a) ==
 ModelledCanary(p, a) ==
   /\ p.wl.exists /\ p.wl.kind = "Deployment" /\ p.wl.style = "canary"
   /\ a \in {"ro", "br", "tick"} \cup UserActs /\ p.wl.cd.n <= 1
+ModelledBlueGreen(p, a) ==
+  /\ p.wl.exists /\ p.wl.kind = "Deployment" /\ p.wl.style = "bluegreen"
+  /\ a \in {"ro", "br", "tick"} \cup UserActs
 Modelled(p, a) ==
-  \/ ModelledPartition(p, a) \/ ModelledCanary(p, a)
+  \/ ModelledPartition(p, a) \/ ModelledCanary(p, a) \/ ModelledBlueGreen(p, a)
   \/ (p.tr.used /\ a \in {"tr", "user.trdelete"})
 
 \* successor set of one action (singletons for the deterministic controller reconciles)
